@@ -167,12 +167,14 @@ theorem sk_of_skL (cs cs0 : TL) (h : skL cs = skL cs0) (j : Nat) (c c0 : T) (h1 
   simp only [Option.map_some, Option.some.injEq] at a
   exact a.symm
 
-theorem runOk_none (R : T × G × List Op) (L L' : List (Nat ⊕ (Bool × Nat))) (vs vs' : List Nat) (h : RunOk R L none vs) :
-    RunOk R L' none vs' := by
+theorem runOk_none (R : T × G × List Op) (L : List (Nat ⊕ (Bool × Nat))) (a : List Nat) (vs vs' : List Nat)
+    (h : RunOk R (L ++ a.map Sum.inl) none vs) : RunOk R L none vs' := by
   obtain ⟨h1, h2, h3, h4⟩ := h
-  refine ⟨h1, h2, fun hf => ?_, fun hf => ⟨(h4 hf).1, fun hv => absurd rfl hv⟩⟩
-  obtain ⟨⟨r, e, _⟩, _⟩ := h3 hf
-  cases e
+  refine ⟨h1, h2, fun hf => ?_, fun hf => ⟨(h4 hf).1, fun hv => absurd rfl hv, ?_⟩⟩
+  · obtain ⟨⟨r, e, _⟩, _⟩ := h3 hf
+    cases e
+  · obtain ⟨tr, e⟩ := (h4 hf).2.2
+    exact ⟨a ++ tr, by rw [e, List.map_append, List.append_assoc]⟩
 
 /-! ### the generic theorem with reset lists -/
 
@@ -219,5 +221,465 @@ theorem dp_resets (cs0 : TL) (d : Node) (cs : TL) (F : List Nat) (g : G) (rst : 
     rcases List.mem_append.1 hk with x | x
     · exact Or.inl x
     · exact Or.inr (fun c' hc' => h.clean k x c' hc')
+
+/-- carrying out a decision does not move the clock and arms no timer that is already due -/
+theorem dec_facts (cs0 : TL) (KI : Node → Next → List Nat → Prop) (val : Node → Next → Option (Bool × Nat))
+    (vis : Node → Next → List Nat) (need : Node → Next → Nat) (hK : KSpecR cs0 KI val vis need)
+    (hG : ∀ j c0, cs0.get? j = some c0 → ∀ c, sk c = sk c0 → Clean c = true → Good c ∧ Live c)
+    (d : Node) (cs : TL) (g : G) (nx : Next) (F : List Nat) (hdp : DP cs0 d cs F g) (hki : KI d nx F) :
+    (applyNext d cs g nx).2.2.now = g.now ∧
+    (∀ x ∈ allTimers (.node (applyNext d cs g nx).1 (applyNext d cs g nx).2.1) [], g.now < x.1) := by
+  cases nx with
+  | finish s w =>
+    have hd := hdp.dps
+    have hne : d.st ≠ .finished ∧ d.st ≠ .stoped := by simp [hd.st]
+    simp only [applyNext]
+    rw [finish3_nocurr d cs g s w hdp.gi.1 hd.ser hne hd.curr]
+    have := (inert_all_tasks (finNode d g s w) cs hd.inert (by simp [finNode, hd.slp]) (by simp [finNode])).2
+    refine ⟨rfl, ?_⟩
+    simp only
+    rw [this]; intro x hx; cases hx
+  | start j rst onFail =>
+    obtain ⟨hj, hjlt, hnvl⟩ := hK.kstart d j rst onFail F hki
+    obtain ⟨hdp1, hnow1, htr1⟩ := dp_resets cs0 d cs F g rst hdp
+    rw [applyNext_resets]
+    generalize (rst.foldl (fun (p : TL × G) j => resetAt p.1 j p.2) (cs, g)) = R0 at hdp1 hnow1 htr1 ⊢
+    obtain ⟨cs1, g1⟩ := R0
+    simp only at hdp1 hnow1 htr1 ⊢
+    have hlen1 : cs1.length = cs0.length := by rw [← skL_length cs1, hdp1.skl, skL_length]
+    obtain ⟨c0, hget0⟩ := get_of_lt cs0 j hjlt
+    obtain ⟨c, hget⟩ := get_of_lt cs1 j (by omega)
+    have hskc : sk c = sk c0 := sk_of_skL cs1 cs0 hdp1.skl j c c0 hget hget0
+    obtain ⟨hgood, _⟩ := hG j c0 hget0 c hskc (hdp1.clean j hj c hget)
+    obtain ⟨ok, hg0, hnow, _, htim, _⟩ := hgood g1 hdp1.gi
+    rw [applyNext_start d cs1 g1 j onFail c hget ok]
+    refine ⟨by rw [← hnow1]; exact hnow, ?_⟩
+    rw [← hnow1]
+    exact timers_embed_notdue (ctx_of_dps d cs1 j c _ hdp1.dps hget) g1.now htim
+
+/-- **the generic serial-composite theorem with reset lists** (safety and progress in one induction) -/
+theorem genR (cs0 : TL) (KI : Node → Next → List Nat → Prop) (val : Node → Next → Option (Bool × Nat))
+    (vis : Node → Next → List Nat) (need : Node → Next → Nat) (hK : KSpecR cs0 KI val vis need) (M : Nat)
+    (hG : ∀ j c0, cs0.get? j = some c0 → ∀ c, sk c = sk c0 → Clean c = true → Good c ∧ Live c)
+    (hMd : ∀ j c0, cs0.get? j = some c0 → maxDelay c0 ≤ M) :
+    ∀ (n : Nat) (ops : List Op), ops.length < n → ∀ (d : Node) (cs : TL) (g : G) (nx : Next) (F : List Nat),
+      ops.all cfOp = true → DP cs0 d cs F g → KI d nx F →
+      RunOk (runU (.node (applyNext d cs g nx).1 (applyNext d cs g nx).2.1) (applyNext d cs g nx).2.2 ops)
+        (trOf g.log) (val d nx) (vis d nx) ∧
+      (val d nx ≠ none → need d nx ≤ bigCount M ops →
+        hasFin (runU (.node (applyNext d cs g nx).1 (applyNext d cs g nx).2.1) (applyNext d cs g nx).2.2 ops).1 = true ∧
+        bigCount M ops ≤ bigCount M (runU (.node (applyNext d cs g nx).1 (applyNext d cs g nx).2.1) (applyNext d cs g nx).2.2 ops).2.2 + need d nx) := by
+  intro n
+  induction n with
+  | zero => intro ops hlen; omega
+  | succ n ih =>
+    intro ops hlen d cs g nx F hcf hdp hki
+    cases nx with
+    | finish s w =>
+      have hd := hdp.dps
+      have hg := hdp.gi
+      have hne : d.st ≠ .finished ∧ d.st ≠ .stoped := by simp [hd.st]
+      simp only [applyNext]
+      rw [finish3_nocurr d cs g s w hg.1 hd.ser hne hd.curr]
+      have hdn := done_of_finish d cs g s w hd
+      have hv := hK.kfin d s w F hki
+      rw [runU_hasFin _ _ ops hdn.2]
+      refine ⟨⟨⟨⟨hg.1.1, by have := hg.1.2; simp only [G.emit]; omega⟩, hg.2⟩, ?_, ?_, ?_⟩, fun _ _ => ⟨hdn.2, ?_⟩⟩
+      · right; obtain ⟨⟨id, e⟩, _, _⟩ := hdn.1; exact ⟨id, [], s, w, e⟩
+      · intro _; exact ⟨⟨(s, w), hv.1, hdn.1⟩, by simp only [G.emit]; rw [trOf_cons_other _ _ (by intro n; simp) (by intro a b c; simp), hv.2]; simp⟩
+      · intro hf; rw [hdn.2] at hf; cases hf
+      · show bigCount M ops ≤ bigCount M ops + _; omega
+    | start j rst onFail =>
+      obtain ⟨hj, hjlt, hnvl⟩ := hK.kstart d j rst onFail F hki
+      obtain ⟨hdp1, hnow1, htr1⟩ := dp_resets cs0 d cs F g rst hdp
+      rw [applyNext_resets, ← htr1]
+      generalize (rst.foldl (fun (p : TL × G) j => resetAt p.1 j p.2) (cs, g)) = R0 at hdp1 hnow1 htr1 ⊢
+      obtain ⟨cs1, g1⟩ := R0
+      simp only at hdp1 hnow1 htr1 ⊢
+      have hlen1 : cs1.length = cs0.length := by rw [← skL_length cs1, hdp1.skl, skL_length]
+      obtain ⟨c0, hget0⟩ := get_of_lt cs0 j hjlt
+      obtain ⟨c, hget⟩ := get_of_lt cs1 j (by omega)
+      have hskc : sk c = sk c0 := sk_of_skL cs1 cs0 hdp1.skl j c c0 hget hget0
+      obtain ⟨hgood, hlive⟩ := hG j c0 hget0 c hskc (hdp1.clean j hj c hget)
+      obtain ⟨hev, hvi⟩ := eval_of_sk c0 c hskc
+      obtain ⟨hco, hmd⟩ := cost_of_sk c0 c hskc
+      have hd := hdp1.dps
+      have hg := hdp1.gi
+      obtain ⟨ok, hg0, hnow, _, htim, hrun⟩ := hgood g1 hg
+      rw [applyNext_start d cs1 g1 j onFail c hget ok]
+      have hctx := ctx_of_dps d cs1 j c (start c g1).1 hd hget
+      have hway : OnWay (start c g1).1 (start c g1).2.1 := fun ops' hc' => ⟨(hrun ops' hc').2.1, (hrun ops' hc').1.2⟩
+      rw [runU_embed ops _ _ j _ _ hctx hcf hway]
+      have hwc := start_wf c g1 (get_wf cs1 j c hdp1.wf hget) hg.1
+      have hws := runU_wf_sk ops (start c g1).1 (start c g1).2.1 hwc.1 hwc.2.1
+      rw [start_sk] at hws
+      have rc := hrun ops hcf
+      -- progress of the child
+      have lc : val d (.start j rst onFail) ≠ none → need d (.start j rst onFail) ≤ bigCount M ops →
+          hasFin (runU (start c g1).1 (start c g1).2.1 ops).1 = true ∧
+          bigCount M ops ≤ bigCount M (runU (start c g1).1 (start c g1).2.1 ops).2.2 + cost c0 ∧
+          cost c0 + 1 ≤ need d (.start j rst onFail) := by
+        intro hv hn
+        have hec : eval c0 ≠ none := fun e => hv (hK.kdiv d j rst onFail F c0 hki hget0 e)
+        obtain ⟨r, her⟩ := Option.ne_none_iff_exists'.1 hec
+        have k4 := ((hK.kstep d j rst onFail F c0 r hki hget0 her).2.2 hv).2
+        have := hlive g1 hg (by rw [hev]; exact hec) M (by rw [hmd]; exact hMd j c0 hget0) ops hcf (by rw [hco]; omega)
+        rw [hco] at this
+        exact ⟨this.1, this.2, by omega⟩
+      generalize hR : runU (start c g1).1 (start c g1).2.1 ops = R at rc lc hws ⊢
+      obtain ⟨c', g', rest⟩ := R
+      obtain ⟨a1, a2, a3, a4⟩ := rc
+      simp only at a1 a2 a3 a4 lc hws ⊢
+      have hctx' : Ctx { d with curr := some j } (setChild (setChild cs1 j (start c g1).1) j c') j c' := ctx_setChild hctx c'
+      rw [setChild_setChild] at hctx' ⊢
+      have hPnf : hasFin (.node { d with curr := some j } (setChild cs1 j c')) = false := hasFin_of_no_tasks _ _ hd.tasks
+      have hvis : val d (.start j rst onFail) ≠ none → visit c <+: vis d (.start j rst onFail) := by
+        intro hv
+        have hec : eval c0 ≠ none := fun e => hv (hK.kdiv d j rst onFail F c0 hki hget0 e)
+        obtain ⟨r, her⟩ := Option.ne_none_iff_exists'.1 hec
+        rw [((hK.kstep d j rst onFail F c0 r hki hget0 her).2.2 hv).1, hvi]; exact List.prefix_append _ _
+      have hwait : RunOk (.node { d with curr := some j } (setChild cs1 j c'), g', []) (trOf g1.log)
+          (val d (.start j rst onFail)) (vis d (.start j rst onFail)) :=
+        wait_ok hctx' g' _ _ _ (visit c) a1 a2 (fun hf => (a3 hf).2)
+          (fun hf hv => (a4 hf).2.1 (fun e => hv (hK.kdiv d j rst onFail F c0 hki hget0 (by rw [← hev]; exact e)))) (fun hf => (a4 hf).2.2) hvis
+      have hrr := runU_rest ops (start c g1).1 (start c g1).2.1
+      rw [hR] at hrr
+      simp only at hrr
+      cases rest with
+      | nil =>
+        refine ⟨by simpa [runU] using hwait, fun hv hn => ?_⟩
+        have := lc hv hn
+        rw [bigCount_nil] at this; omega
+      | cons op rest' =>
+        have hcf' : hasFin c' = true := by
+          cases hh : hasFin c' with
+          | true => rfl
+          | false => have := (a4 hh).1; cases this
+        obtain ⟨⟨r, her, ⟨id, ht⟩, htm, hcst⟩, hfn⟩ := a3 hcf'
+        rw [hev] at her
+        have hopcf : cfOp op = true ∧ rest'.all cfOp = true := by
+          have := hrr.2 hcf; simpa using this
+        have hb1 : bigCount M (op :: rest') ≤ bigCount M rest' + 1 := by rw [bigCount_cons]; split <;> omega
+        have e1 : runU (.node { d with curr := some j } (setChild cs1 j c')) g' (op :: rest') =
+            runU (step (.node { d with curr := some j } (setChild cs1 j c')) g' op).1
+                 (step (.node { d with curr := some j } (setChild cs1 j c')) g' op).2.1 rest' := by
+          simp [runU, hPnf]
+        rw [e1, step_done hctx' (by rw [← hd.ser]; exact isSerial_congr d _ rfl) g' a1.2 op hopcf.1 id r ht]
+        have hinert := popChild_done (setChild cs1 j c') j id c' r hctx'.get ht htm hctx'.others
+        have hdpp : DPS d (popChild (setChild cs1 j c') j id) :=
+          ⟨hd.st, hd.curr, hd.tasks, hd.tmoAt, hd.slp, hd.tmo, hd.ser, hd.fin0, hinert⟩
+        have hlenp : (popChild (setChild cs1 j c') j id).length = cs0.length := by
+          rw [length_popChild, length_setChild]; exact hlen1
+        have hg1 : GIu (advG g' op) := advG_GIu g' op a1
+        have hso : serialOnChild { d with curr := some j } (popChild (setChild cs1 j c') j id) (advG g' op) j r.1 r.2 =
+            applyNext (serialNext d cs0.length j r.1 r.2).1 (popChild (setChild cs1 j c') j id) (advG g' op)
+                   (serialNext d cs0.length j r.1 r.2).2 := by
+          unfold serialOnChild
+          have e : ({ ({ d with curr := some j } : Node) with curr := none } : Node) = d := curr_roundtrip d j hd.curr
+          have c1 : (d.st == St.running) = true := by simp [hd.st]
+          simp only [e, c1, ↓reduceIte, hlenp, hnvl, Bool.false_eq_true]
+        rw [hso]
+        obtain ⟨k1, k2, k34⟩ := hK.kstep d j rst onFail F c0 r hki hget0 her
+        have hdp' : DP cs0 (serialNext d cs0.length j r.1 r.2).1 (popChild (setChild cs1 j c') j id) ((rst ++ F).filter (· != j)) (advG g' op) := by
+          refine ⟨dps_serialNext d _ cs0.length j r.1 r.2 hdpp, ?_, (popChild_spec _ j id (wfL_setChild cs1 j c' hdp1.wf hws.1)).1, ?_, hg1⟩
+          · rw [popChild_sk, skL_setChild cs1 j c c' hget hws.2]; exact hdp1.skl
+          · intro k hk c2 hc2
+            simp only [List.mem_filter, bne_iff_ne, ne_eq] at hk
+            rw [get_popChild_ne _ _ _ _ hk.2, get_setChild_ne _ _ _ _ hk.2] at hc2
+            exact hdp1.clean k hk.1 c2 hc2
+        have hfacts := dec_facts cs0 KI val vis need hK hG _ _ _ _ _ hdp' k1
+        rw [fireTimers_notdue _ _ (by rw [hfacts.1]; exact hfacts.2)]
+        have hlen' : rest'.length < n := by
+          have := hrr.1; simp only [List.length_cons] at this hlen; omega
+        have ihr := ih rest' hlen' _ _ (advG g' op) _ _ hopcf.2 hdp' k1
+        refine ⟨?_, fun hv hn => ?_⟩
+        · by_cases hv : val d (.start j rst onFail) = none
+          · rw [hv]
+            have hvn := ihr.1
+            rw [← k2, hv, advG_log, hfn] at hvn
+            exact runOk_none _ _ _ _ _ hvn
+          · obtain ⟨k3, _⟩ := k34 hv
+            have hvn := ihr.1
+            rw [advG_log, hfn, hvi] at hvn
+            rw [k2, k3]
+            exact runOk_shift _ _ _ _ _ hvn
+        · obtain ⟨_, k4⟩ := k34 hv
+          obtain ⟨l1, l2, l3⟩ := lc hv hn
+          have ihl := ihr.2 (by rw [← k2]; exact hv) (by omega)
+          refine ⟨ihl.1, ?_⟩
+          have h2 := ihl.2
+          simp only at h2 ⊢
+          omega
+
+theorem cleanL_get : ∀ (cs : TL) (j : Nat) (c : T), CleanL cs = true → cs.get? j = some c → Clean c = true
+  | .nil, _, _, _, h => by simp [TL.get?] at h
+  | .cons t ts, 0, c, hc, h => by
+    simp only [CleanL, Bool.and_eq_true] at hc; simp only [TL.get?, Option.some.injEq] at h; subst h; exact hc.1
+  | .cons t ts, j + 1, c, hc, h => by
+    simp only [CleanL, Bool.and_eq_true] at hc; simp only [TL.get?] at h; exact cleanL_get ts j c hc.2 h
+
+/-- from the kind's specification to the behaviour and the progress of the freshly built composite -/
+theorem both_serialR (d : Node) (cs : TL) (hc : cleanNode d = true) (hser : d.isSerial = true) (htmo : d.tmo = none)
+    (hcl : CleanL cs = true) (hwf : WFL cs = true)
+    (hG : ∀ j c0, cs.get? j = some c0 → ∀ c, sk c = sk c0 → Clean c = true → Good c ∧ Live c)
+    (KI : Node → Next → List Nat → Prop) (val : Node → Next → Option (Bool × Nat)) (vis : Node → Next → List Nat)
+    (need : Node → Next → Nat) (hK : KSpecR cs KI val vis need)
+    (hki : KI (decNode d cs.length) (serialStart {} d cs.length).2 (List.range cs.length))
+    (hrst : ∀ j rst onFail, (serialStart {} d cs.length).2 = .start j rst onFail → rst = [])
+    (hval : val (decNode d cs.length) (serialStart {} d cs.length).2 = eval (.node d cs))
+    (hvis : vis (decNode d cs.length) (serialStart {} d cs.length).2 = visit (.node d cs))
+    (hneed : need (decNode d cs.length) (serialStart {} d cs.length).2 ≤ cost (.node d cs)) :
+    Good (.node d cs) ∧ Live (.node d cs) := by
+  have hd := dps_decNode d cs hc hser htmo hcl
+  have hdp : ∀ g, GIu g → DP cs (decNode d cs.length) cs (List.range cs.length) g := fun g hg =>
+    ⟨hd, rfl, hwf, fun j _ c h => cleanL_get cs j c hcl h, hg⟩
+  have hnx : ∀ g, GIu g → ∀ j rst onFail, (serialStart {} d cs.length).2 = .start j rst onFail →
+      rst = [] ∧ ∃ c, cs.get? j = some c ∧ (start c g).2.2 = true := by
+    intro g hg j rst onFail e
+    have hr := hrst j rst onFail e
+    rw [e] at hki
+    obtain ⟨_, hjlt, _⟩ := hK.kstart _ j rst onFail _ hki
+    obtain ⟨c, hcget⟩ := get_of_lt cs j hjlt
+    exact ⟨hr, c, hcget, ((hG j c hcget c rfl (cleanL_get cs j c hcl hcget)).1 g hg).1⟩
+  constructor
+  · intro g hg
+    rw [start_serial d cs g hc hser htmo hg.1 (hnx g hg)]
+    have hgen := fun ops hcf => (genR cs KI val vis need hK (maxDelayL cs) hG (fun j c0 h => maxDelayL_get cs j c0 h)
+      (List.length ops + 1) ops (Nat.lt_succ_self _) (decNode d cs.length) cs g
+      (serialStart {} d cs.length).2 (List.range cs.length) hcf (hdp g hg) hki).1
+    have hf := dec_facts cs KI val vis need hK hG _ _ _ _ _ (hdp g hg) hki
+    refine ⟨rfl, ?_, hf.1, trivial, hf.2, ?_⟩
+    · have := (hgen [] (by simp)).1; simpa [runU] using this
+    · intro ops hcf
+      have := hgen ops hcf
+      rw [hval, hvis] at this
+      exact this
+  · intro g hg hev M hM ops hcf hcost
+    rw [start_serial d cs g hc hser htmo hg.1 (hnx g hg)]
+    have hML : maxDelayL cs ≤ M := by
+      have : maxDelayL cs ≤ maxDelay (.node d cs) := by rw [maxDelay]; omega
+      omega
+    have := (genR cs KI val vis need hK M hG (fun j c0 h => Nat.le_trans (maxDelayL_get cs j c0 h) hML)
+      (List.length ops + 1) ops (Nat.lt_succ_self _) (decNode d cs.length) cs g
+      (serialStart {} d cs.length).2 (List.range cs.length) hcf (hdp g hg) hki).2 (by rw [hval]; exact hev) (by omega)
+    refine ⟨this.1, ?_⟩
+    have h2 := this.2
+    simp only at h2 ⊢
+    omega
+
+theorem costAt0_le : ∀ (cs : TL), 1 ≤ cs.length → costAt cs 0 + 1 ≤ costL cs
+  | .nil, h => by simp [TL.length] at h
+  | .cons t ts, _ => by simp [costAt, TL.get?, costL]
+
+/-! ### LoopAction -/
+
+/-- is this the result a LoopAction waits for? -/
+def loopEnds (m : LoopMode) (s : Bool) : Bool := (m == .untilSucc && s) || (m == .untilFail && !s)
+
+theorem good_loop (d : Node) (cs : TL) (m : LoopMode) (hk : d.kind = .loop m) (hc : cleanNode d = true) (htmo : d.tmo = none)
+    (hcl : CleanL cs = true) (hwf : WFL cs = true)
+    (hG : ∀ j c0, cs.get? j = some c0 → ∀ c, sk c = sk c0 → Clean c = true → Good c ∧ Live c) (hlen : cs.length = 1) :
+    Good (.node d cs) ∧ Live (.node d cs) := by
+  have hser : d.isSerial = true := serial_of_kind d (by simp [Node.isLeaf, Node.isPar, hk])
+  have hev : eval (.node d cs) = match evalAt cs 0 with
+      | none => none
+      | some (s, w) => if loopEnds m s then some (s, w) else none := by rw [eval]; simp only [hk, loopEnds]; rfl
+  refine both_serialR d cs hc hser htmo hcl hwf hG
+    (fun d' nx F => d'.kind = .loop m ∧ ((∃ rst, nx = .start 0 rst none ∧ 0 ∈ rst ++ F) ∨ ∃ s w, nx = .finish s w))
+    (fun _ nx => match nx with | .finish s w => some (s, w) | .start _ _ _ => eval (.node d cs))
+    (fun _ nx => match nx with | .finish _ _ => [] | .start _ _ _ => visitAt cs 0)
+    (fun _ nx => match nx with | .finish _ _ => 0 | .start _ _ _ => costAt cs 0 + 1)
+    ⟨?_, ?_, ?_, ?_⟩ ?_ ?_ ?_ ?_ ?_
+  · intro d' s w F _; exact ⟨rfl, rfl⟩
+  · intro d' j rst onFail F h
+    rcases h.2 with ⟨rst', e, h0⟩ | ⟨s, w, e⟩
+    · cases e; exact ⟨h0, by omega, by simp [viaLast, h.1]⟩
+    · cases e
+  · intro d' j rst onFail F c r h hget her
+    rcases h.2 with ⟨rst', e, h0⟩ | ⟨s, w, e⟩
+    · cases e
+      have hev0 := (evalAt_get cs 0 c hget)
+      by_cases hend : loopEnds m r.1 = true
+      · have hsn : serialNext d' cs.length 0 r.1 r.2 = (d', .finish r.1 r.2) := by
+          unfold serialNext; rw [h.1]; simp only [loopEnds] at hend; simp [hend]
+        rw [hsn]
+        refine ⟨⟨h.1, Or.inr ⟨_, _, rfl⟩⟩, ?_, fun _ => ⟨?_, ?_⟩⟩
+        · simp only; rw [hev, hev0.1, her]; simp [hend]
+        · simp [hev0.2]
+        · simp [costAt, hget]
+      · have hend' : loopEnds m r.1 = false := by simpa using hend
+        have hsn : serialNext d' cs.length 0 r.1 r.2 = (d', .start 0 [0] none) := by
+          unfold serialNext; rw [h.1]; simp only [loopEnds] at hend'; simp [hend']
+        rw [hsn]
+        refine ⟨⟨h.1, Or.inl ⟨[0], rfl, by simp⟩⟩, rfl, fun hv => ?_⟩
+        exfalso; apply hv
+        simp only; rw [hev, hev0.1, her]; simp [hend']
+    · cases e
+  · intro d' j rst onFail F c h hget her
+    rcases h.2 with ⟨rst', e, h0⟩ | ⟨s, w, e⟩
+    · cases e; simp only; rw [hev, (evalAt_get cs 0 c hget).1, her]
+    · cases e
+  · refine ⟨by simp [decNode, serialStart, hk], Or.inl ⟨[], by simp [serialStart, hk], List.mem_range.2 (by omega)⟩⟩
+  · intro j rst onFail e; simp [serialStart, hk] at e; exact e.2.1
+  · simp only [serialStart, hk]
+  · simp only [serialStart, hk]; rw [visit]; simp only [hk]
+  · simp only [serialStart, hk]
+    rw [cost]; simp only [hk, mult]
+    have := costAt0_le cs (by omega); omega
+
+/-! ### LoopIfAction (children: condition, body) -/
+
+theorem good_loopIf (d : Node) (cs : TL) (fr : Bool) (hk : d.kind = .loopIf fr) (hc : cleanNode d = true) (htmo : d.tmo = none)
+    (hcl : CleanL cs = true) (hwf : WFL cs = true)
+    (hG : ∀ j c0, cs.get? j = some c0 → ∀ c, sk c = sk c0 → Clean c = true → Good c ∧ Live c) (hlen : cs.length = 2) :
+    Good (.node d cs) ∧ Live (.node d cs) := by
+  have hser : d.isSerial = true := serial_of_kind d (by simp [Node.isLeaf, Node.isPar, hk])
+  have hev : eval (.node d cs) = match evalAt cs 0 with
+      | some (false, w) => some (fr, w)
+      | _ => none := by rw [eval]; simp only [hk]; rfl
+  refine both_serialR d cs hc hser htmo hcl hwf hG
+    (fun d' nx F => d'.kind = .loopIf fr ∧
+      ((∃ rst onFail, nx = .start 0 rst onFail ∧ 0 ∈ rst ++ F ∧ 1 ∈ rst ++ F) ∨
+       (nx = .start 1 [] none ∧ 1 ∈ F ∧ ∃ w, evalAt cs 0 = some (true, w)) ∨ ∃ s w, nx = .finish s w))
+    (fun _ nx => match nx with | .finish s w => some (s, w) | .start _ _ _ => eval (.node d cs))
+    (fun _ nx => match nx with | .finish _ _ => [] | .start _ _ _ => visitAt cs 0)
+    (fun _ nx => match nx with | .finish _ _ => 0 | .start _ _ _ => costAt cs 0 + 1)
+    ⟨?_, ?_, ?_, ?_⟩ ?_ ?_ ?_ ?_ ?_
+  · intro d' s w F _; exact ⟨rfl, rfl⟩
+  · intro d' j rst onFail F h
+    rcases h.2 with ⟨rst', onFail', e, h0, h1⟩ | ⟨e, h1, _⟩ | ⟨s, w, e⟩
+    · cases e; exact ⟨h0, by omega, by simp [viaLast, h.1]⟩
+    · cases e; exact ⟨by simpa using h1, by omega, by simp [viaLast, h.1]⟩
+    · cases e
+  · intro d' j rst onFail F c r h hget her
+    rcases h.2 with ⟨rst', onFail', e, h0, h1⟩ | ⟨e, h1, w0, hw0⟩ | ⟨s, w, e⟩
+    · cases e
+      have hev0 := (evalAt_get cs 0 c hget)
+      obtain ⟨r1, r2⟩ := r
+      cases r1 with
+      | true =>
+        have hsn : serialNext d' cs.length 0 true r2 = (d', .start 1 [] none) := by
+          unfold serialNext; rw [h.1]; simp
+        rw [hsn]
+        refine ⟨⟨h.1, Or.inr (Or.inl ⟨rfl, ?_, r2, by rw [hev0.1, her]⟩)⟩, rfl, fun hv => ?_⟩
+        · simp only [List.mem_filter, bne_iff_ne, ne_eq]; exact ⟨h1, by omega⟩
+        · exfalso; apply hv; simp only; rw [hev, hev0.1, her]
+      | false =>
+        have hsn : serialNext d' cs.length 0 false r2 = (d', .finish fr r2) := by
+          unfold serialNext; rw [h.1]; simp
+        rw [hsn]
+        refine ⟨⟨h.1, Or.inr (Or.inr ⟨_, _, rfl⟩)⟩, ?_, fun _ => ⟨?_, ?_⟩⟩
+        · simp only; rw [hev, hev0.1, her]
+        · simp [hev0.2]
+        · simp [costAt, hget]
+    · cases e
+      have hsn : serialNext d' cs.length 1 r.1 r.2 = (d', .start 0 [0, 1] (some (fr, r.2))) := by
+        unfold serialNext; rw [h.1]; simp
+      rw [hsn]
+      refine ⟨⟨h.1, Or.inl ⟨[0, 1], _, rfl, by simp, by simp⟩⟩, rfl, fun hv => ?_⟩
+      exfalso; apply hv; simp only; rw [hev, hw0]
+    · cases e
+  · intro d' j rst onFail F c h hget her
+    rcases h.2 with ⟨rst', onFail', e, h0, h1⟩ | ⟨e, h1, w0, hw0⟩ | ⟨s, w, e⟩
+    · cases e; simp only; rw [hev, (evalAt_get cs 0 c hget).1, her]
+    · cases e; simp only; rw [hev, hw0]
+    · cases e
+  · refine ⟨by simp [decNode, serialStart, hk], Or.inl ⟨[], none, by simp [serialStart, hk], List.mem_range.2 (by omega), List.mem_range.2 (by omega)⟩⟩
+  · intro j rst onFail e; simp [serialStart, hk] at e; exact e.2.1
+  · simp only [serialStart, hk]
+  · simp only [serialStart, hk]; rw [visit]; simp only [hk]
+  · simp only [serialStart, hk]
+    rw [cost]; simp only [hk, mult]
+    have := costAt0_le cs (by omega); omega
+
+/-! ### RepeatAction (times ≥ 1) -/
+
+def repBreak (m : RepMode) (s : Bool) : Bool := (m == .breakSucc && s) || (m == .breakFail && !s)
+
+theorem flatten_replicate_succ {α} (k : Nat) (v : List α) : (List.replicate (k + 1) v).flatten = v ++ (List.replicate k v).flatten := by
+  simp [List.replicate_succ]
+
+theorem good_repeat (d : Node) (cs : TL) (n : Nat) (m : RepMode) (hk : d.kind = .repeat_ n m) (hc : cleanNode d = true) (htmo : d.tmo = none)
+    (hcl : CleanL cs = true) (hwf : WFL cs = true)
+    (hG : ∀ j c0, cs.get? j = some c0 → ∀ c, sk c = sk c0 → Clean c = true → Good c ∧ Live c) (hlen : cs.length = 1) (hn : 1 ≤ n) :
+    Good (.node d cs) ∧ Live (.node d cs) := by
+  have hser : d.isSerial = true := serial_of_kind d (by simp [Node.isLeaf, Node.isPar, hk])
+  have hn0 : (n == 0) = false := by simp; omega
+  have hev : eval (.node d cs) = match evalAt cs 0 with
+      | none => none
+      | some (s, w) => if repBreak m s then some (s, w) else some (true, 7) := by
+    rw [eval]; simp only [hk, repBreak, hn0, Bool.false_eq_true, ↓reduceIte]; rfl
+  refine both_serialR d cs hc hser htmo hcl hwf hG
+    (fun d' nx F => d'.kind = .repeat_ n m ∧ ((∃ rst, nx = .start 0 rst none ∧ 0 ∈ rst ++ F) ∨ ∃ s w, nx = .finish s w))
+    (fun _ nx => match nx with | .finish s w => some (s, w) | .start _ _ _ => eval (.node d cs))
+    (fun d' nx => match nx with
+      | .finish _ _ => []
+      | .start _ _ _ => match evalAt cs 0 with
+        | none => visitAt cs 0
+        | some (s, _) => if repBreak m s then visitAt cs 0 else (List.replicate (d'.remainTimes + 1) (visitAt cs 0)).flatten)
+    (fun d' nx => match nx with | .finish _ _ => 0 | .start _ _ _ => (d'.remainTimes + 1) * (costAt cs 0 + 1))
+    ⟨?_, ?_, ?_, ?_⟩ ?_ ?_ ?_ ?_ ?_
+  · intro d' s w F _; exact ⟨rfl, rfl⟩
+  · intro d' j rst onFail F h
+    rcases h.2 with ⟨rst', e, h0⟩ | ⟨s, w, e⟩
+    · cases e; exact ⟨h0, by omega, by simp [viaLast, h.1]⟩
+    · cases e
+  · intro d' j rst onFail F c r h hget her
+    rcases h.2 with ⟨rst', e, h0⟩ | ⟨s, w, e⟩
+    · cases e
+      have hev0 := (evalAt_get cs 0 c hget)
+      have hca : costAt cs 0 = cost c := by simp [costAt, hget]
+      by_cases hb : repBreak m r.1 = true
+      · have hsn : serialNext d' cs.length 0 r.1 r.2 = (d', .finish r.1 r.2) := by
+          unfold serialNext; rw [h.1]; simp only [repBreak] at hb; simp [hb]
+        rw [hsn]
+        refine ⟨⟨h.1, Or.inr ⟨_, _, rfl⟩⟩, ?_, fun _ => ⟨?_, ?_⟩⟩
+        · simp only; rw [hev, hev0.1, her]; simp [hb]
+        · simp only; rw [hev0.1, her]; simp [hb, hev0.2]
+        · simp only [hca, Nat.add_zero]
+          have := Nat.le_mul_of_pos_left (cost c + 1) (Nat.succ_pos d'.remainTimes); omega
+      · have hb' : repBreak m r.1 = false := by simpa using hb
+        by_cases hrem : d'.remainTimes > 0
+        · have hsn : serialNext d' cs.length 0 r.1 r.2 = ({ d' with remainTimes := d'.remainTimes - 1 }, .start 0 [0] none) := by
+            unfold serialNext; rw [h.1]; simp only [repBreak] at hb'; simp [hb', hrem]
+          rw [hsn]
+          refine ⟨⟨h.1, Or.inl ⟨[0], rfl, by simp⟩⟩, rfl, fun _ => ⟨?_, ?_⟩⟩
+          · simp only; rw [hev0.1, her]; simp only [hb', Bool.false_eq_true, ↓reduceIte]
+            have e : d'.remainTimes - 1 + 1 = d'.remainTimes := by omega
+            rw [e, flatten_replicate_succ, hev0.2]
+          · simp only [hca]
+            have e : d'.remainTimes - 1 + 1 = d'.remainTimes := by omega
+            rw [e, Nat.succ_mul]; omega
+        · have hsn : serialNext d' cs.length 0 r.1 r.2 = (d', .finish true 7) := by
+            unfold serialNext; rw [h.1]; simp only [repBreak] at hb'; simp [hb', hrem]
+          rw [hsn]
+          refine ⟨⟨h.1, Or.inr ⟨_, _, rfl⟩⟩, ?_, fun _ => ⟨?_, ?_⟩⟩
+          · simp only; rw [hev, hev0.1, her]; simp [hb']
+          · simp only; rw [hev0.1, her]; simp only [hb', Bool.false_eq_true, ↓reduceIte]
+            have e : d'.remainTimes = 0 := by omega
+            rw [e]; simp [hev0.2]
+          · simp only [hca, Nat.add_zero]
+            have := Nat.le_mul_of_pos_left (cost c + 1) (Nat.succ_pos d'.remainTimes); omega
+    · cases e
+  · intro d' j rst onFail F c h hget her
+    rcases h.2 with ⟨rst', e, h0⟩ | ⟨s, w, e⟩
+    · cases e; simp only; rw [hev, (evalAt_get cs 0 c hget).1, her]
+    · cases e
+  · refine ⟨by simp [decNode, serialStart, hk], Or.inl ⟨[], by simp [serialStart, hk], List.mem_range.2 (by omega)⟩⟩
+  · intro j rst onFail e; simp [serialStart, hk] at e; exact e.2.1
+  · simp only [serialStart, hk]
+  · have hrt : (decNode d cs.length).remainTimes = n - 1 := by simp [decNode, serialStart, hk, hn0]
+    simp only [serialStart, hk, hrt]
+    rw [visit]; simp only [hk, repBreak]
+    have e : n - 1 + 1 = n := by omega
+    rw [e]; rfl
+  · have hrt : (decNode d cs.length).remainTimes = n - 1 := by simp [decNode, serialStart, hk, hn0]
+    simp only [serialStart, hk, hrt]
+    rw [cost]; simp only [hk, mult]
+    have e : n - 1 + 1 = n := by omega
+    rw [e]
+    have := costAt0_le cs (by omega)
+    have := Nat.mul_le_mul_left n this
+    omega
 
 end Tbox.C17
